@@ -361,7 +361,7 @@ func (e *kvElection) attemptAcquire() error {
 	if err != nil {
 		log := e.getLogger()
 		log.Error("acquire_failed",
-			append(e.logWithContext(e.ctx),
+			append(e.logWithContext(e.runContext()),
 				zap.Error(err),
 				zap.String("error_type", "marshal_error"),
 			)...,
@@ -398,7 +398,7 @@ func (e *kvElection) attemptAcquire() error {
 
 		log := e.getLogger()
 		log.Debug("acquire_failed",
-			append(e.logWithContext(e.ctx),
+			append(e.logWithContext(e.runContext()),
 				zap.Error(err),
 				zap.String("error_type", classifyErrorType(err)),
 			)...,
@@ -410,7 +410,7 @@ func (e *kvElection) attemptAcquire() error {
 
 	log := e.getLogger()
 	log.Info("acquire_success",
-		append(e.logWithContext(e.ctx),
+		append(e.logWithContext(e.runContext()),
 			zap.String("token", token),
 			zap.Uint64("revision", rev),
 		)...,
@@ -421,6 +421,16 @@ func (e *kvElection) attemptAcquire() error {
 		return ErrAlreadyStopped
 	}
 	return nil
+}
+
+// runContext returns the context of the current run (nil once StopWithContext has
+// completed) for code that does not hold e.mu: e.ctx is replaced by Start and
+// cleared by StopWithContext while goroutines of an earlier run may still be
+// winding down.
+func (e *kvElection) runContext() context.Context {
+	e.mu.RLock()
+	defer e.mu.RUnlock()
+	return e.ctx
 }
 
 // running reports whether the election has been started and not yet stopped.
@@ -527,7 +537,7 @@ func (e *kvElection) becomeLeader(token string, rev uint64) bool {
 				if r := recover(); r != nil {
 					log := e.getLogger()
 					log.Error("onpromote_callback_panic",
-						append(e.logWithContext(e.ctx),
+						append(e.logWithContext(e.runContext()),
 							zap.Any("panic", r),
 						)...,
 					)
@@ -586,7 +596,7 @@ func (e *kvElection) attemptPriorityTakeover(payloadBytes []byte) error {
 
 	log := e.getLogger()
 	log.Warn("priority_takeover_success",
-		append(e.logWithContext(e.ctx),
+		append(e.logWithContext(e.runContext()),
 			zap.String("previous_leader", currentPayload.ID),
 			zap.Int("previous_priority", currentPayload.Priority),
 			zap.Int("our_priority", e.cfg.Priority),
@@ -680,7 +690,7 @@ func (e *kvElection) stepDown(reason string) {
 	if onDemote != nil {
 		log := e.getLogger()
 		log.Info("leader_demoted",
-			append(e.logWithContext(e.ctx),
+			append(e.logWithContext(e.runContext()),
 				zap.String("reason", reason),
 			)...,
 		)
